@@ -53,7 +53,7 @@ CLASSES = {
 CLASS_NAMES = list(CLASSES)
 
 EXTRAS = ["named_ineq", "user_eq", "lmi_sym", "lmi_nonsym", "lmi_two", "lmi_unsent", "lmi_cross", "partition1", "partition2",
-          "fn_constraint", "fn_lmi", "fn_lmi_two", "noise", "unused_lmi_class", "same_constraint_twice", "const_metric", "two_metrics", "second_function", "dup_eval"]
+          "fn_constraint", "fn_lmi", "fn_lmi_two", "noise", "unused_lmi_class", "same_constraint_twice", "const_metric", "two_metrics", "second_function", "dup_eval", "one_sample_functions"]
 
 
 class Ctx(object):
@@ -331,6 +331,18 @@ def build(spec):
             p.set_performance_metric(m + 0.5)
         elif ex == "two_metrics":
             p.set_performance_metric(2 * d0 + 0.125)
+        elif ex == "one_sample_functions":
+            # functions / operators with exactly ONE recorded sample (and one used through its transpose only): their
+            # one-sample conditions (norm bounds, 1x1 class LMIs) are part of the model
+            from PEPit.functions import ConvexLipschitzFunction
+            from PEPit.operators import LinearOperator, SymmetricLinearOperator
+            f3 = p.declare_function(ConvexLipschitzFunction, M=2.0)
+            A = p.declare_function(LinearOperator, L=2.0)
+            B = p.declare_function(SymmetricLinearOperator, mu=0.5, L=2.0)
+            c.funcs["f3"], c.funcs["A"], c.funcs["B"] = f3, A, B
+            c.points["g3"] = f3.gradient(x0)
+            c.points["ATx"] = A.T.gradient(x0)
+            c.points["Bx"] = B.gradient(x0)
         elif ex == "second_function":
             f2 = p.declare_function(SmoothStronglyConvexFunction, mu=0.1, L=1.0)
             c.funcs["f2"] = f2
